@@ -56,3 +56,183 @@ Example ex_cache :
   crun cache_init [CSet; CId; CSet; CAsRaw; CId; CBlobChunked; CId; CSetRaw; CIdOther; CId] =
   [(1, 1); (2, 2); (2, 2); (3, 3); (4, 4); (4, 4)]%nat.
 Proof. vm_compute. reflexivity. Qed.
+
+(* ---------- (b) header folding ---------- *)
+Definition no_lf (l : bytes) : Prop := Forall (fun c => c <> LF) l.
+
+Lemma split_lf_join : forall l cur,
+  concat (map (fun x => x ++ [LF]) (split_lf l cur)) = rev cur ++ l ++ [LF].
+Proof.
+  induction l as [|c l IH]; intros cur; cbn [split_lf].
+  - cbn. rewrite app_nil_r. reflexivity.
+  - destruct (c =? LF) eqn:E.
+    + assert (c = LF) by lia. subst. cbn [map concat]. rewrite IH. cbn [rev app]. rewrite <- app_assoc. reflexivity.
+    + rewrite IH. cbn [rev]. rewrite <- app_assoc. reflexivity.
+Qed.
+
+Lemma split_lf_no_lf : forall l cur, no_lf cur -> Forall no_lf (split_lf l cur).
+Proof.
+  induction l as [|c l IH]; intros cur Hc; cbn [split_lf].
+  - constructor; [|constructor]. unfold no_lf in *. apply Forall_rev. exact Hc.
+  - destruct (c =? LF) eqn:E.
+    + constructor; [unfold no_lf in *; apply Forall_rev; exact Hc|]. apply IH. constructor.
+    + apply IH. constructor; [lia|exact Hc].
+Qed.
+
+Lemma split_lf_nonempty l cur : split_lf l cur <> [].
+Proof. revert cur; induction l as [|c l IH]; intros cur; cbn [split_lf]; [discriminate|]. destruct (c =? LF); [discriminate|apply IH]. Qed.
+
+(* a line: no LF inside, LF at the end *)
+Lemma lines_line : forall x rest cur, no_lf x ->
+  lines (x ++ LF :: rest) cur = (rev cur ++ x ++ [LF]) :: lines rest [].
+Proof.
+  induction x as [|c x IH]; intros rest cur Hx; cbn [app lines].
+  - change (LF =? LF) with true. cbv iota. cbn [rev]. rewrite <- app_assoc. reflexivity.
+  - inversion Hx; subst. replace (c =? LF) with false by lia. rewrite IH by assumption.
+    cbn [rev]. rewrite <- app_assoc. reflexivity.
+Qed.
+
+Lemma lines_concat : forall l cur, concat (lines l cur) = rev cur ++ l.
+Proof.
+  induction l as [|c l IH]; intros cur; cbn [lines].
+  - destruct cur; cbn; [reflexivity|]. rewrite app_nil_r, app_nil_r. reflexivity.
+  - destruct (c =? LF) eqn:E.
+    + cbn [concat]. rewrite IH. cbn [rev app]. rewrite <- app_assoc. reflexivity.
+    + rewrite IH. cbn [rev]. rewrite <- app_assoc. reflexivity.
+Qed.
+
+Definition key_ok (k : bytes) : Prop := k <> [] /\ Forall (fun c => c <> SP /\ c <> LF) k.
+
+Definition header_lines (h : bytes * bytes) : list bytes :=
+  match split_lf (snd h) [] with
+  | [] => []
+  | first :: rest => (fst h ++ SP :: first ++ [LF]) :: map (fun l => SP :: l ++ [LF]) rest
+  end.
+
+Lemma format_header_lines h : format_header h = concat (header_lines h).
+Proof.
+  unfold format_header, header_lines. destruct (split_lf (snd h) []) as [|first rest]; [reflexivity|].
+  cbn [concat]. rewrite <- !app_assoc. cbn [app]. f_equal. f_equal. f_equal.
+  induction rest as [|l rest IH]; [reflexivity|]. cbn [flat_map map concat]. rewrite IH. reflexivity.
+Qed.
+
+Lemma lines_of_lines : forall (ls : list bytes) rest,
+  Forall (fun l => exists x, l = x ++ [LF] /\ no_lf x) ls ->
+  lines (concat ls ++ rest) [] = ls ++ lines rest [].
+Proof.
+  induction ls as [|l ls IH]; intros rest H; [reflexivity|].
+  inversion H as [|? ? (x & -> & Hx) Hls]; subst. cbn [concat]. rewrite <- !app_assoc. cbn [app].
+  rewrite lines_line by exact Hx. cbn [rev app]. rewrite IH by exact Hls. reflexivity.
+Qed.
+
+Lemma header_lines_wf h : key_ok (fst h) ->
+  Forall (fun l => exists x, l = x ++ [LF] /\ no_lf x) (header_lines h).
+Proof.
+  intros [Hne Hk]. unfold header_lines.
+  pose proof (split_lf_no_lf (snd h) [] ltac:(constructor)) as Hs.
+  destruct (split_lf (snd h) []) as [|first rest]; [constructor|].
+  inversion Hs as [|? ? Hf Hr]; subst. constructor.
+  - exists (fst h ++ SP :: first). split; [rewrite <- app_assoc; reflexivity|].
+    unfold no_lf. apply Forall_app. split.
+    + eapply Forall_impl; [|exact Hk]. intros c [_ H]. exact H.
+    + constructor; [unfold SP, LF; lia|exact Hf].
+  - clear -Hr. induction Hr as [|l rest Hl _ IH]; [constructor|]. constructor; [|exact IH].
+    exists (SP :: l). split; [reflexivity|]. constructor; [unfold SP, LF; lia|exact Hl].
+Qed.
+
+Lemma split_sp_key k rest : Forall (fun c => c <> SP /\ c <> LF) k ->
+  forall cur, split_sp (k ++ SP :: rest) cur = Some (rev cur ++ k, rest).
+Proof.
+  induction k as [|c k IH]; intros Hk cur; cbn [app split_sp].
+  - change (SP =? SP) with true. cbv iota. rewrite app_nil_r. reflexivity.
+  - inversion Hk as [|? ? [Hc _] Hk']; subst. replace (c =? SP) with false by lia.
+    rewrite IH by exact Hk'. cbn [rev]. rewrite <- app_assoc. reflexivity.
+Qed.
+
+Lemma strip_last_lf_app v : strip_last_lf (v ++ [LF]) = v.
+Proof.
+  unfold strip_last_lf. rewrite rev_app_distr. cbn [rev app]. change (LF =? LF) with true. cbv iota.
+  apply rev_involutive.
+Qed.
+
+(* continuation lines are absorbed into the value *)
+Lemma parse_conts : forall (rest : list bytes) ls k v,
+  parse_lines (map (fun l => SP :: l ++ [LF]) rest ++ ls) k v =
+  parse_lines ls k (v ++ concat (map (fun l => l ++ [LF]) rest)).
+Proof.
+  induction rest as [|l rest IH]; intros ls k v; cbn [map app concat].
+  - rewrite app_nil_r. reflexivity.
+  - cbn [parse_lines]. change (SP =? SP) with true. cbv iota. rewrite IH. rewrite <- app_assoc. reflexivity.
+Qed.
+
+Definition flushk (k : option bytes) (v : bytes) : list pitem :=
+  match k with Some key => [PHeader key (strip_last_lf v)] | None => [] end.
+
+Lemma parse_lines_flush_head ls k v : (* unfolding helper *)
+  match ls with
+  | (c :: cont) :: r =>
+    if c =? SP then True else True
+  | _ => True
+  end.
+Proof. destruct ls as [|[|c cont] r]; auto. destruct (c =? SP); auto. Qed.
+
+Lemma parse_one_header h ls k v : key_ok (fst h) ->
+  parse_lines (header_lines h ++ ls) k v =
+  flushk k v ++ parse_lines ls (Some (fst h)) (snd h ++ [LF]).
+Proof.
+  intros [Hne Hk]. unfold header_lines.
+  pose proof (split_lf_join (snd h) []) as Hj. cbn [rev app] in Hj.
+  destruct (split_lf (snd h) []) as [|first rest] eqn:Es; [exfalso; eapply split_lf_nonempty; eauto|].
+  cbn [app]. destruct (fst h) as [|c kk] eqn:Ek; [contradiction|].
+  inversion Hk as [|? ? [Hc1 Hc2] Hk']; subst.
+  cbn [parse_lines app]. replace (c =? SP) with false by lia.
+  replace ((c =? LF) && match kk ++ SP :: first ++ [LF] with [] => true | _ :: _ => false end) with false
+    by (replace (c =? LF) with false by lia; reflexivity).
+  change (c :: kk ++ SP :: first ++ [LF]) with ((c :: kk) ++ SP :: (first ++ [LF])).
+  rewrite (split_sp_key (c :: kk) (first ++ [LF]) Hk []). cbn [rev app].
+  fold (flushk k v). f_equal.
+  rewrite parse_conts. f_equal. cbn [map concat] in Hj. rewrite <- app_assoc. exact Hj.
+Qed.
+
+Lemma parse_headers : forall hs ls k v,
+  Forall (fun h => key_ok (fst h)) hs ->
+  parse_lines (concat (map header_lines hs) ++ ls) k v =
+  match hs with
+  | [] => parse_lines ls k v
+  | _ => flushk k v ++ map (fun h => PHeader (fst h) (snd h)) (removelast hs)
+         ++ parse_lines ls (Some (fst (last hs ([], [])))) (snd (last hs ([], [])) ++ [LF])
+  end.
+Proof.
+  induction hs as [|h hs IH]; intros ls k v Hall; [reflexivity|].
+  inversion Hall as [|? ? Hh Hhs]; subst. cbn [map concat]. rewrite <- app_assoc.
+  rewrite parse_one_header by exact Hh. rewrite IH by exact Hhs.
+  destruct hs as [|h2 hs']; [reflexivity|].
+  cbn [flushk]. rewrite strip_last_lf_app. cbn [removelast last map app]. destruct h as [hk hv]. reflexivity.
+Qed.
+
+Lemma message_roundtrip_lemma hs body :
+  Forall (fun h => key_ok (fst h)) hs ->
+  parse_message (format_message hs body) =
+  map (fun h => PHeader (fst h) (snd h)) hs ++ [PBody (Some (match body with Some b => b | None => [] end))].
+Proof.
+  intros Hall. unfold parse_message, format_message.
+  set (b := match body with Some b => b | None => [] end).
+  assert (Hfl : flat_map format_header hs = concat (concat (map header_lines hs))).
+  { clear. induction hs as [|h hs IH]; [reflexivity|]. cbn [flat_map map concat]. rewrite concat_app, IH, format_header_lines. reflexivity. }
+  rewrite Hfl. rewrite lines_of_lines.
+  2:{ clear -Hall. induction Hall as [|h hs Hh _ IH]; [constructor|]. cbn [map concat]. apply Forall_app. split; [apply header_lines_wf; exact Hh|exact IH]. }
+  (* the blank line *)
+  assert (Hbl : lines ([LF] ++ b) [] = [LF] :: lines b []) by reflexivity.
+  rewrite Hbl. rewrite parse_headers by exact Hall.
+  assert (Hblank : forall k v, parse_lines ([LF] :: lines b []) k v = flushk k v ++ [PBody (Some b)]).
+  { intros k v. cbn [parse_lines]. change (LF =? SP) with false. change ((LF =? LF) && true) with true. cbv iota.
+    rewrite lines_concat. reflexivity. }
+  destruct hs as [|h hs']; [rewrite Hblank; reflexivity|].
+  rewrite Hblank. cbn [flushk]. rewrite strip_last_lf_app. cbn [app].
+  (* removelast ++ [last] = whole list *)
+  assert (Hl : forall (l : list (bytes * bytes)) d, l <> [] ->
+            map (fun h => PHeader (fst h) (snd h)) (removelast l) ++ [PHeader (fst (last l d)) (snd (last l d))]
+            = map (fun h => PHeader (fst h) (snd h)) l).
+  { intros l d Hne. rewrite (app_removelast_last d Hne) at 3. rewrite map_app. reflexivity. }
+  rewrite <- (Hl (h :: hs') ([], []) ltac:(discriminate)). rewrite <- app_assoc. reflexivity.
+Qed.
